@@ -29,7 +29,7 @@ IsEvent(e) == l <= Len(Trace) /\ Trace[l].ev = e /\ l' = l + 1
 Rec == Trace[l]
 
 \* after the last line: print the counters (one STATS line per trace)
-Final == l' = Len(Trace) + 1 => PrintT("STATS " \o ToJson(cnt'))
+Final == IF l' = Len(Trace) + 1 THEN PrintT("STATS " \o ToJson(cnt')) ELSE TRUE
 
 TraceCall ==
     /\ IsEvent("Call")
@@ -62,7 +62,7 @@ TracePanic ==
     /\ cur # NoCall /\ Rec.case = cur.case
     /\ IF PanicAllowed(cur)
        THEN Panic(Rec)
-       ELSE /\ ("C01" \in Props => PrintT("VIOL " \o ToJson(<<cur.case, {<<"C01", "Panic">>}, Rec.where, Rec.msg>>)))
+       ELSE /\ (IF "C01" \in Props THEN PrintT("VIOL " \o ToJson(<<cur.case, {<<"C01", "Panic">>}, Rec.where, Rec.msg>>)) ELSE TRUE)
             /\ cur' = NoCall /\ UNCHANGED grp
     /\ cnt' = [cnt EXCEPT !.panics = @ + 1,
                           !.viol = @ + (IF ~PanicAllowed(cur) /\ "C01" \in Props THEN 1 ELSE 0)]
@@ -71,7 +71,7 @@ TracePanic ==
 TraceAbort ==      \* AutogApi!Abort is never enabled: an abort is always rejected
     /\ IsEvent("Abort")
     /\ cur # NoCall /\ Rec.case = cur.case
-    /\ ("C01" \in Props => PrintT("VIOL " \o ToJson(<<cur.case, {<<"C01", "Abort_" \o Rec.kind>>}, Rec.where>>)))
+    /\ (IF "C01" \in Props THEN PrintT("VIOL " \o ToJson(<<cur.case, {<<"C01", "Abort_" \o Rec.kind>>}, Rec.where>>)) ELSE TRUE)
     /\ cur' = NoCall /\ UNCHANGED grp
     /\ cnt' = [cnt EXCEPT !.aborts = @ + 1, !.viol = @ + (IF "C01" \in Props THEN 1 ELSE 0)]
     /\ Final
